@@ -68,6 +68,9 @@ fn family_m() -> Vec<(Kind, Vec<ChildSpec>)> {
         (Kind::Mb(3), vec![s("IPI"), s(""), s("P")]),
         (Kind::Mu(0), vec![]),
         (Kind::Mu(2), vec![s("IP"), s("PI")]),
+        (Kind::MuIter(0), vec![]),
+        (Kind::MuIter(1), vec![s("IP")]),
+        (Kind::MuIter(3), vec![s("I"), s(""), s("PI")]),
     ]
 }
 
@@ -292,7 +295,7 @@ pub fn scenarios(prop: &str, tier: &str) -> Vec<Cfg> {
                 c.prefill = pre;
                 c.specs = vec![s("P"), s("IP"), s("w")];
                 c.ops = ops::POLL | ops::POLL_NEW | ops::POLL_HOOK | ops::COMPLETE | ops::WAKE | ops::STALE_WAKE;
-                if matches!(k, Kind::Mu(_)) {
+                if matches!(k, Kind::Mu(_) | Kind::MuIter(_)) {
                     c.ops |= ops::PUSH;
                 }
                 c.costly = ops::STALE_WAKE | ops::POLL_NEW | ops::PUSH;
@@ -335,11 +338,11 @@ pub fn scenarios(prop: &str, tier: &str) -> Vec<Cfg> {
                 let mut c = Cfg::new("C02", k);
                 c.prefill = (0..pre).map(|_| f(Mode::Gate)).collect();
                 c.specs = vec![f(Mode::Gate), f(Mode::Ready), f(Mode::Yield1), f(Mode::WakeReady)];
-                c.ops = ops::PUSH | ops::POLL | ops::COMPLETE | ops::WAKE | ops::STALE_WAKE | ops::PUSH_WHEN_FULL;
+                c.ops = ops::PUSH | ops::POLL | ops::POLL_NEW | ops::COMPLETE | ops::WAKE | ops::STALE_WAKE | ops::PUSH_WHEN_FULL;
                 if k.is_ordered() {
                     c.ops |= ops::PUSH_FRONT;
                 }
-                c.costly = ops::WAKE | ops::STALE_WAKE | ops::PUSH_WHEN_FULL | ops::PUSH;
+                c.costly = ops::WAKE | ops::STALE_WAKE | ops::PUSH_WHEN_FULL | ops::PUSH | ops::POLL_NEW;
                 c.delta = 2;
                 c.depth = d;
                 c.epilogue = Epilogue::Drain;
@@ -433,8 +436,8 @@ pub fn scenarios(prop: &str, tier: &str) -> Vec<Cfg> {
                 let mut c = Cfg::new("C05", k);
                 c.prefill = (0..pre).map(|_| f(Mode::Gate)).collect();
                 c.specs = vec![f(Mode::Gate), f(Mode::WakeReady), f(Mode::Relay), f(Mode::Yield1)];
-                c.ops = ops::PUSH | ops::POLL | ops::COMPLETE | ops::STALE_WAKE | ops::WAKE;
-                c.costly = ops::WAKE;
+                c.ops = ops::PUSH | ops::POLL | ops::POLL_NEW | ops::COMPLETE | ops::STALE_WAKE | ops::WAKE;
+                c.costly = ops::WAKE | ops::POLL_NEW;
                 c.delta = 1;
                 c.depth = d;
                 c.epilogue = Epilogue::Drain;
@@ -446,7 +449,7 @@ pub fn scenarios(prop: &str, tier: &str) -> Vec<Cfg> {
                 c.prefill = pre;
                 c.specs = vec![s(""), s("I"), s("P")];
                 c.ops = ops::POLL | ops::COMPLETE | ops::STALE_WAKE | ops::WAKE;
-                if matches!(k, Kind::Mu(_)) {
+                if matches!(k, Kind::Mu(_) | Kind::MuIter(_)) {
                     c.ops |= ops::PUSH;
                 }
                 c.costly = ops::WAKE;
@@ -518,6 +521,28 @@ pub fn scenarios(prop: &str, tier: &str) -> Vec<Cfg> {
                 c.depth = d;
                 c.epilogue = Epilogue::DropNow;
                 v.push(c);
+            }
+            // zero-sized futures with a destructor
+            for k in [Kind::FubZ(1), Kind::FubZ(2), Kind::FubZ(3), Kind::FuZ(1), Kind::FuZ(2)] {
+                let mut c = Cfg::new("C06", k);
+                c.name = format!("{:?} (zero-sized futures)", k);
+                c.specs = vec![f(Mode::Gate), f(Mode::Ready)];
+                c.ops = ops::PUSH | ops::POLL | ops::COMPLETE | ops::PUSH_WHEN_FULL;
+                c.depth = d;
+                c.epilogue = Epilogue::DropNow;
+                v.push(c);
+            }
+            for n in 1..=3usize {
+                for pre in all_vectors(n, &[f(Mode::Gate), f(Mode::Ready)]) {
+                    let mut c = Cfg::new("C06", Kind::JaZ(n));
+                    c.name = format!("join_all<zero-sized futures>[{}]", pre.iter().map(|p| p.render()).collect::<Vec<_>>().join(","));
+                    c.prefill = pre;
+                    c.ops = ops::POLL | ops::COMPLETE;
+                    c.depth = d;
+                    c.post_ready_polls = 1;
+                    c.epilogue = Epilogue::DropNow;
+                    v.push(c);
+                }
             }
             for k in [Kind::FobN(2), Kind::FobN(3)] {
                 let mut c = Cfg::new("C06", k);
@@ -707,11 +732,11 @@ pub fn scenarios(prop: &str, tier: &str) -> Vec<Cfg> {
                 c.name = format!("{:?}[{}]", k, pre.iter().map(|p| p.render()).collect::<Vec<_>>().join(","));
                 c.prefill = pre;
                 c.specs = merge_scripts();
-                c.ops = ops::POLL | ops::COMPLETE | ops::WAKE;
-                if matches!(k, Kind::Mu(_)) {
+                c.ops = ops::POLL | ops::POLL_NEW | ops::COMPLETE | ops::WAKE;
+                if matches!(k, Kind::Mu(_) | Kind::MuIter(_)) {
                     c.ops |= ops::PUSH;
                 }
-                c.costly = ops::WAKE | ops::PUSH;
+                c.costly = ops::WAKE | ops::PUSH | ops::POLL_NEW;
                 c.delta = 2;
                 c.depth = d;
                 c.epilogue = Epilogue::Drain;
@@ -758,8 +783,8 @@ pub fn scenarios(prop: &str, tier: &str) -> Vec<Cfg> {
                 c.name = format!("{:?} prefill {}", k, pre);
                 c.prefill = (0..pre).map(|_| f(Mode::Gate)).collect();
                 c.specs = vec![f(Mode::Gate), f(Mode::Ready), f(Mode::Yield1)];
-                c.ops = ops::PUSH | ops::POLL | ops::COMPLETE | ops::WAKE | ops::STALE_WAKE;
-                c.costly = ops::PUSH;
+                c.ops = ops::PUSH | ops::POLL | ops::POLL_NEW | ops::COMPLETE | ops::WAKE | ops::STALE_WAKE;
+                c.costly = ops::PUSH | ops::POLL_NEW;
                 c.delta = 2;
                 c.depth = d;
                 c.epilogue = Epilogue::Drain;
@@ -770,26 +795,27 @@ pub fn scenarios(prop: &str, tier: &str) -> Vec<Cfg> {
                 c.name = format!("{:?}[{}]", k, pre.iter().map(|p| p.render()).collect::<Vec<_>>().join(","));
                 c.prefill = pre;
                 c.specs = vec![s("IP")];
-                c.ops = ops::POLL | ops::COMPLETE | ops::WAKE | ops::STALE_WAKE;
+                c.ops = ops::POLL | ops::POLL_NEW | ops::COMPLETE | ops::WAKE | ops::STALE_WAKE;
                 c.depth = d;
                 c.epilogue = Epilogue::Drain;
                 v.push(c);
             }
             for k in adapters(&[1, 2]) {
                 let mut c = adapter_cfg("C12", k, 3, HintShape::Exact, d, 2);
-                c.ops |= ops::WAKE | ops::STALE_WAKE;
+                c.ops |= ops::WAKE | ops::STALE_WAKE | ops::POLL_NEW;
+                c.costly |= ops::POLL_NEW;
                 v.push(c);
             }
             for mut c in join_cfgs("C12", 2, d, 0, Epilogue::Drain) {
-                c.ops |= ops::STALE_WAKE;
-                c.costly = 0;
+                c.ops |= ops::STALE_WAKE | ops::POLL_NEW;
+                c.costly = ops::POLL_NEW;
                 v.push(c);
             }
             for (k, n, m) in [(Kind::Fub(70), 70, Mode::Gate), (Kind::FuNew, 40, Mode::Gate), (Kind::FuCap(1), 7, Mode::Gate)] {
                 let mut c = Cfg::new("C12", k);
                 c.name = format!("{:?} prefilled {}x{:?}", k, n, m);
                 c.prefill = (0..n).map(|_| f(m)).collect();
-                c.ops = ops::POLL | ops::WAKE | ops::COMPLETE;
+                c.ops = ops::POLL | ops::POLL_NEW | ops::WAKE | ops::COMPLETE;
                 c.costly = ops::WAKE | ops::COMPLETE;
                 c.delta = 2;
                 c.depth = 4;
@@ -801,7 +827,8 @@ pub fn scenarios(prop: &str, tier: &str) -> Vec<Cfg> {
         }
         // ------------------------------------------------------------------------------------ C13
         "C13" => {
-            let sizes: Vec<usize> = if thorough { vec![1, 2, 31, 32, 33, 61, 62, 63, 96, 130] } else { vec![1, 2, 31, 32, 33, 62, 96] };
+            // around every group boundary (32, 96) and around multiples of the per-poll budget (61, 122, 183)
+            let sizes: Vec<usize> = if thorough { vec![1, 2, 31, 32, 33, 60, 61, 62, 63, 96, 122, 123, 130, 183, 185] } else { vec![1, 2, 31, 32, 33, 61, 62, 96, 123] };
             let d = if thorough { 8 } else { 5 };
             #[derive(Clone, Copy, PartialEq)]
             enum Pop {
@@ -821,7 +848,9 @@ pub fn scenarios(prop: &str, tier: &str) -> Vec<Cfg> {
                 c.name = format!("{:?} population {}x{} victim at {}", k, n, match pop { Pop::Omega => "Iω", Pop::YieldInf => "YieldInf", Pop::Ready => "Ready" }, pos);
                 c.prefill = pre;
                 c.dormant = true;
-                c.ops = ops::POLL | ops::UNLEASH | ops::COMPLETE;
+                c.ops = ops::POLL | ops::POLL_NEW | ops::UNLEASH | ops::COMPLETE;
+                c.costly = ops::POLL_NEW;
+                c.delta = 1;
                 c.focus = Some(vec![pos as u32]);
                 c.depth = d;
                 c.epilogue = Epilogue::Starve;
@@ -907,7 +936,7 @@ pub fn scenarios(prop: &str, tier: &str) -> Vec<Cfg> {
                 c.prefill = pre;
                 c.specs = vec![s("P"), s("IP")];
                 c.ops = ops::POLL | ops::COMPLETE | ops::WAKE | ops::STALE_WAKE;
-                if matches!(k, Kind::Mu(_)) {
+                if matches!(k, Kind::Mu(_) | Kind::MuIter(_)) {
                     c.ops |= ops::PUSH;
                 }
                 c.depth = d;
